@@ -16,6 +16,7 @@ def run(tier, seed):
     run_fragments(rep, [core.RefC()], tier)
     from . import wiring
     wiring.no_direct_rule_calls(rep, tier)
+    wiring.rule_wrapper_obligations(rep, tier)
     wiring.ignored_rule_is_memoised(rep, tier)
     wiring.memo_key_obligations(rep, tier)
     rep.assumptions.append('requires at generator creation: the requested key is not already on the stack (no left recursion, A-wf); '
